@@ -280,6 +280,27 @@ def ev(e, env, funcs=None):
             st = ev(s.step, env, funcs) if s.step is not None else None
             return v[lo:hi:st]
         return v[ev(s, env, funcs)]
+    if isinstance(e, (ast.ListComp, ast.GeneratorExp)) and len(e.generators) == 1 and not e.generators[0].is_async:
+        gen = e.generators[0]
+        it = ev(gen.iter, env, funcs)
+        if isinstance(it, range):
+            it = tuple(it)
+        if not isinstance(it, (tuple, str)) or len(it) > 200:
+            raise NotClosed('comprehension iterable')
+        out = []
+        for item in it:
+            env2 = dict(env)
+            if isinstance(gen.target, ast.Name):
+                env2[gen.target.id] = item
+            elif isinstance(gen.target, ast.Tuple) and all(isinstance(t, ast.Name) for t in gen.target.elts) and isinstance(item, tuple) \
+                    and len(item) == len(gen.target.elts):
+                for t, v in zip(gen.target.elts, item):
+                    env2[t.id] = v
+            else:
+                raise NotClosed('comprehension target')
+            if all(ev(c, env2, funcs) for c in gen.ifs):
+                out.append(ev(e.elt, env2, funcs))
+        return tuple(out)
     if isinstance(e, ast.JoinedStr):
         out = []
         for v in e.values:
@@ -299,9 +320,12 @@ def ev(e, env, funcs=None):
     if isinstance(e, ast.Call):
         if isinstance(e.func, ast.Name) and e.func.id == 'format' and len(e.args) == 2 and not e.keywords:
             return format(ev(e.args[0], env, funcs), ev(e.args[1], env, funcs))
-        if isinstance(e.func, ast.Name) and e.func.id in ('len', 'int', 'min', 'max', 'str') and not e.keywords:
+        if isinstance(e.func, ast.Name) and e.func.id in ('len', 'int', 'min', 'max', 'str', 'range', 'tuple', 'list', 'sorted', 'sum', 'any', 'all', 'bool', 'abs') \
+                and not e.keywords:
             args = [ev(a, env, funcs) for a in e.args]
-            return {'len': len, 'int': int, 'min': min, 'max': max, 'str': str}[e.func.id](*args)
+            r_ = {'len': len, 'int': int, 'min': min, 'max': max, 'str': str, 'range': range, 'tuple': tuple, 'list': tuple,
+                  'sorted': lambda x: tuple(sorted(x)), 'sum': sum, 'any': any, 'all': all, 'bool': bool, 'abs': abs}[e.func.id](*args)
+            return tuple(r_) if isinstance(r_, range) and len(r_) <= 500 else r_
         if isinstance(e.func, ast.Attribute) and e.func.attr == 'format' and is_str(e.func.value):
             args = [ev(a, env, funcs) for a in e.args]
             kw = {k.arg: ev(k.value, env, funcs) for k in e.keywords}
@@ -477,3 +501,16 @@ def path_condition(node, fn):
         p = parent(p)
     out.reverse()
     return out
+
+
+def preorder(fn):
+    """{id(node): index} in source order (depth-first, fields in syntax order) - unlike line numbers this stays
+    meaningful for statements that the normal form moved in from a helper"""
+    idx = {}
+
+    def w(n):
+        idx[id(n)] = len(idx)
+        for c in ast.iter_child_nodes(n):
+            w(c)
+    w(fn)
+    return idx
